@@ -11,6 +11,8 @@ dft/*       DiscreteFourierTransform / ...Inverse._call_numpy and _call_pyfftw o
             the axes, ifftn(v) = conj(F(conj v)) / N, DFT inversion F(conj(F v)) = N conj v, rfftn / irfftn an inverse pair on real input,
             pyfftw_call by its documented contract): inverse(forward(x)) == x for both signs and half-complex; NumPy and FFTW back-ends
             return the same term; sign '+' forward == N * ifftn (conjugate-linear identity, not only for real data)
+wavelet-adjoint/*  WaveletTransform.adjoint / WaveletTransformInverse.adjoint for an orthogonal wavelet: scale * partner with scale = 1 / w resp. w,
+            w = cell volume over ALL axes (also for axes subsets), partner built on the very space with the same wavelet / levels / padding / axes
 """
 import itertools
 
@@ -30,6 +32,8 @@ META = {
         'abstract DFT algebra: fftn = F (linear), ifftn(v) = conj(F(conj v)) / N, inversion theorem F(conj(F v)) = N conj v, irfftn(rfftn(v)) = v for real v of the stated parity, '
         'documented contract of pyfftw_call (forward = F, backward = N * ifftn unless normalise_idft)',
         'uniform_grid(min, max, shape) taken by its arguments (cut)',
+        'wavelet adjoint: PyWavelets with periodic extension is an orthogonal matrix for an orthogonal wavelet (external), the coefficient space is unweighted and the L2 space '
+        'carries its default weighting (constant = cell volume); Operator.__rmul__ by its C05 contract (scalar * operator)',
     ],
     'assumptions': ['A1', 'A7'],
     'not_decided': ['the FFT kernels (numpy.fft / pyfftw) and PyWavelets themselves; wavelet coefficient flattening / cropping', 'continuous FourierTransform: convergence to the analytic transform of a Gaussian',
@@ -352,6 +356,104 @@ def unit_dft(sign, halfcomplex):
                 config={'sign': sign, 'halfcomplex': halfcomplex})
 
 
+WAV = 'odl.trafos.wavelet:'
+
+
+def unit_wavelet_adjoint(cname, ndim, axes):
+    """WaveletTransform.adjoint / WaveletTransformInverse.adjoint for an orthogonal wavelet: the returned operator is  scale * self.inverse  with
+    scale * w == 1 (forward) resp. scale == w (inverse), w the constant of the L2 weighting = the cell volume over ALL axes, also when only a
+    subset of the axes is transformed; the partner is built on the very space of the operator with the same wavelet / levels / padding / axes.
+    Lemma (periodic extension, pywt trusted): the coefficient map is an orthogonal matrix Q, so <Q x, y>_2 = <x, Q^T y>_2 = (1/w) <x, Q^-1 y>_w."""
+    def run(ctx):
+        I = ctx.I
+
+        def path(st):
+            st.object_arrays = True
+            fr = ip.Frame(st)
+            hs = [sym('h%d' % i) for i in range(ndim)]
+            for h in hs:
+                st.assume(h > 0)
+            vol = hs[0]
+            for h in hs[1:]:
+                vol = vol * h
+
+            class Part(object):
+                def pv_getattr(self, I_, fr_, name):
+                    if name == 'cell_sides':
+                        return ONd(np.array(hs, dtype=object))
+                    if name == 'cell_volume':
+                        return vol
+                    if name == 'ndim':
+                        return ndim
+                    raise Unsupported('partition.%s' % name)
+
+            class Space(object):
+                tag = 'L2'
+
+                def pv_getattr(self, I_, fr_, name):
+                    if name == 'partition':
+                        return Part()
+                    if name in ('cell_sides', 'cell_volume', 'ndim'):
+                        return Part().pv_getattr(I_, fr_, name)
+                    raise Unsupported('space.%s' % name)
+            sp, coeff = Space(), ip.Obj(I.get_class('odl.set.space:LinearSpace'))
+            made = []
+
+            def mk_ctor(cn):
+                def ctor(I_, fr_, self, *a, **kw):
+                    self.fields['ctor'] = (cn, a, dict(kw))
+                    made.append(self)
+                return ctor
+            from contracts import oplib
+            st.cuts.update(oplib.operator_cuts())
+            for cn in ('WaveletTransform', 'WaveletTransformInverse'):
+                st.cuts[WAV + cn + '.__init__'] = mk_ctor(cn)
+            st.cuts['odl.operator.operator:Operator.__rmul__'] = lambda I_, fr_, self, other: ('lscal', other, self)
+
+            class Wavelet(object):
+                def pv_getattr(self, I_, fr_, name):
+                    if name in ('orthogonal', 'biorthogonal'):
+                        return True
+                    raise Unsupported('wavelet.%s' % name)
+            wv = Wavelet()
+            op = ip.Obj(I.get_class(WAV + cname))
+            fwd = cname == 'WaveletTransform'
+            pc = sym('pad_const')
+            op.fields.update({'_Operator__domain': sp if fwd else coeff, '_Operator__range': coeff if fwd else sp, '_Operator__is_linear': True, 'axes': tuple(axes),
+                              'pywt_wavelet': wv, '_WaveletTransformBase__nlevels': 2, '_WaveletTransformBase__impl': 'pywt', '_WaveletTransformBase__wavelet': 'db2',
+                              '_WaveletTransformBase__pad_mode': 'pywt_periodic', '_WaveletTransformBase__pad_const': pc,
+                              '_WaveletTransformBase__variant': 'forward' if fwd else 'inverse'})
+            try:
+                adj = I._getattr(op, 'adjoint', fr)
+            except ip.PyRaise as e:
+                return ('raise', e.exc)
+            return ('ok', dict(adj=adj, sp=sp, vol=vol, wv=wv, pc=pc, op=op))
+        info = {'class': cname, 'ndim': ndim, 'axes': list(axes)}
+        for st, (status, r) in ctx.explore(path):
+            if status == 'raise':
+                ctx.fail(st, 'adjoint of an orthogonal wavelet transform does not raise', 'raises %s' % lib.exc_desc(r), info)
+                continue
+            adj = r['adj']
+            ok = isinstance(adj, tuple) and adj[0] == 'lscal' and isinstance(adj[2], ip.Obj) and 'ctor' in adj[2].fields
+            ctx.prove(st, 'adjoint is  scale * (partner transform)', ok, info)
+            if not ok:
+                continue
+            scale = core.S.lift(adj[1])
+            cn, a, kw = adj[2].fields['ctor']
+            fwd = cname == 'WaveletTransform'
+            ctx.prove(st, 'adjoint: partner class, no positional surprises', cn == ('WaveletTransformInverse' if fwd else 'WaveletTransform') and not a, info)
+            ctx.prove(st, 'adjoint: the partner lives on the very L2 space of the operator', kw.get('range' if fwd else 'domain') is r['sp'], info)
+            ctx.prove(st, 'adjoint: same wavelet, number of levels, padding mode / constant, back-end and axes',
+                      kw.get('wavelet') is r['wv'] and kw.get('nlevels') == 2 and kw.get('pad_mode') == 'pywt_periodic' and kw.get('pad_const') is r['pc']
+                      and kw.get('impl') == 'pywt' and tuple(kw.get('axes') or ()) == tuple(axes), info)
+            if fwd:
+                ctx.prove(st, 'adjoint scaling: scale * (cell volume over ALL axes) == 1   [<W x, y>_2 == <x, scale W^-1 y>_w]', core.sc_eq(scale * r['vol'], 1), info)
+            else:
+                ctx.prove(st, 'adjoint scaling: scale == cell volume over ALL axes   [<W^-1 c, y>_w == <c, scale W y>_2]', core.sc_eq(scale, r['vol']), info)
+    return Unit('wavelet-adjoint/%s/ndim=%d/axes=%s' % (cname, ndim, ''.join(map(str, axes))), run, funcs=[WAV + cname + '.adjoint', WAV + cname + '.inverse'],
+                config={'class': cname, 'ndim': ndim, 'axes': list(axes)})
+
+
 def unit_canary():
     """must fail: conj(F(x)) claimed equal to N * ifftn(x) for complex x"""
     def run(ctx):
@@ -378,5 +480,8 @@ def units(tier, seed):
     for sign in ('-', '+'):
         us.append(unit_dft(sign, False))
     us.append(unit_dft('-', True))
+    for cn in ('WaveletTransform', 'WaveletTransformInverse'):
+        for ndim, axes in ((1, (0,)), (2, (0, 1)), (2, (0,)), (2, (1,)), (3, (0, 2)), (3, (1,)), (3, (0, 1, 2))):
+            us.append(unit_wavelet_adjoint(cn, ndim, axes))
     us.append(unit_canary())
     return us
